@@ -46,8 +46,28 @@ def subst(v, pairs, heap=None):
     return v
 
 
+def _mentions(expr, vars_):
+    seen = set()
+    todo = [expr]
+    while todo:
+        x = todo.pop()
+        if x.get_id() in seen:
+            continue
+        seen.add(x.get_id())
+        if any(x.eq(v) for v in vars_):
+            return True
+        todo.extend(x.children())
+    return False
+
+
 class SymCtx:
     symbolic = True
+
+    def min(self, a, b):
+        a, b = simp_int(a), simp_int(b)
+        if isinstance(a, int) and isinstance(b, int):
+            return min(a, b)
+        return simp_int(z3.If(zint(a) < zint(b), zint(a), zint(b)))
 
     def __init__(self, ex, fr):
         self.ex, self.fr = ex, fr
@@ -141,8 +161,10 @@ class SymCtx:
         assert isinstance(st, DictState), st
         return st.entries
 
-    def _match(self, ent, key):
-        """Condition under which `ent` defines `key`, and the binder instantiation used."""
+    def _match(self, ent, key, witness=None):
+        """Condition under which `ent` defines `key`, and the binder instantiation used.
+        `witness`: optional terms for the binders the key does not determine (in binder order): the existential
+        is then instantiated by hand - a proof hint, sound because it only strengthens the condition."""
         if not isinstance(key, tuple):
             key = (key,)
         if len(ent.key) != len(key):
@@ -155,14 +177,36 @@ class SymCtx:
             if is_z3(ek) and any(ek.eq(b) for b in binder_vars) and not any(ek.eq(s) for s in solved):
                 pairs.append((ek, zint(k) if not is_z3(k) else k))
                 solved.add(ek)
-            else:
-                conds.append((ek, k))
+                continue
+            if is_z3(ek) and z3.is_int(ek) and not isinstance(k, (tuple, str)) and (is_z3(k) or isinstance(k, int)):
+                # key component  b + offset  (e.g. range(1, n)): solve  b = k - offset
+                hit = None
+                for b in binder_vars:
+                    if any(b.eq(s) for s in solved):
+                        continue
+                    off = z3.simplify(z3.substitute(ek, (b, z3.IntVal(0))))
+                    if z3.is_true(z3.simplify(ek == b + off)) and not _mentions(off, binder_vars):
+                        hit = (b, off)
+                        break
+                if hit is not None:
+                    pairs.append((hit[0], z3.simplify(zint(k) - hit[1])))
+                    solved.add(hit[0])
+                    continue
+            conds.append((ek, k))
         unsolved = [b for b in binder_vars if not any(b.eq(s) for s in solved)]
+        if witness is not None and unsolved and len(witness) >= len(unsolved):
+            pairs = pairs + [(b, zint(t)) for b, t in zip(unsolved, witness)]
+            unsolved = []
         aux = list(getattr(ent, "aux", ()))
         rng = [z3.And(zint(lo) <= v, v < zint(hi)) for v, lo, hi in ent.binders]
         body = [subst(r, pairs) for r in rng] + [subst(ent.guard, pairs)]
         for ek, k in conds:
-            body.append(zbool(self.ex.equal(subst(ek, pairs, self.fr.heap), k, self.fr)))
+            r = self.ex.equal(subst(ek, pairs, self.fr.heap), k, self.fr)
+            if isinstance(r, bool):
+                if not r:
+                    return False, pairs
+                continue
+            body.append(zbool(r))
         from .exec import _and
 
         cond = _and(body)
@@ -171,14 +215,16 @@ class SymCtx:
             cond = z3.Exists(qs, cond)
         return cond, pairs
 
-    def defined(self, d, key):
+    def defined(self, d, key, witness=None):
         from .exec import _or
 
-        return _or([self._match(e, key)[0] for e in self._entries(d)])
+        return _or([self._match(e, key, witness)[0] for e in self._entries(d)])
 
     def lookup(self, d, key):
         """Value stored under key: the latest matching insertion."""
-        out = None
+        # a key no insertion defines evaluates to a sentinel that equals nothing (the real code raises KeyError)
+        out = Opaque("<undefined-key>")
+        hit = False
         for e in self._entries(d):
             cond, pairs = self._match(e, key)
             if isinstance(cond, bool) and not cond:
@@ -188,12 +234,35 @@ class SymCtx:
 
                 raise Unsupported("lookup through a non-invertible key family")
             val = subst(e.value, pairs, self.fr.heap)
-            out = val if out is None else ite(cond, val, out)
-        if out is None:
+            out = ite(cond, val, out)
+            hit = True
+        if not hit:
             from .exec import Unsupported
 
             raise Unsupported("lookup of a key no insertion can define")
         return out
+
+    def holds_at(self, d, key, pred, witness=None):
+        """`key` is defined and the value stored under it (latest insertion) satisfies `pred`."""
+        ents = list(self._entries(d))
+        matches = [self._match(e, key, witness) for e in ents]
+        out = []
+        for n, (e, (cond, pairs)) in enumerate(zip(ents, matches)):
+            if isinstance(cond, bool) and not cond:
+                continue
+            if (getattr(e, "aux", ()) or len(pairs) < len(e.binders)) and not isinstance(cond, bool):
+                from .exec import Unsupported
+
+                raise Unsupported("holds_at through a non-invertible key family")
+            later = [self.Not(c2) for (c2, _), e2 in zip(matches[n + 1:], ents[n + 1:]) if not getattr(e2, "keep_first", False) or True]
+            val = subst(e.value, pairs, self.fr.heap)
+            out.append(self.And(cond, *later, pred(val)))
+        return self.Or(*out)
+
+    def dict_rest_is(self, d, base, own):
+        """Apart from the insertions (whose keys all satisfy `own`), the dict is a copy of `base`."""
+        st = self.fr.heap[d.oid] if isinstance(d, Ref) else d
+        return self.And(st.base is base, self.forall_entries(d, lambda k, v: own(k)))
 
     def forall_entries(self, d, fn, name_filter=None):
         """Conjunction over all insertions: for all binders in range with guard: fn(key, value)."""
@@ -242,6 +311,9 @@ class ConcCtx:
     def ite(self, c, a, b):
         return a if c else b
 
+    def min(self, a, b):
+        return min(a, b)
+
     def forall(self, lo, hi, fn):
         return all(fn(k) for k in range(lo, hi))
 
@@ -282,7 +354,7 @@ class ConcCtx:
     def truth(self, v):
         return bool(v)
 
-    def defined(self, d, key):
+    def defined(self, d, key, witness=None):
         return key in d
 
     def lookup(self, d, key):
@@ -293,6 +365,13 @@ class ConcCtx:
 
     def entry_count(self, d):
         return len(d)
+
+    def holds_at(self, d, key, pred, witness=None):
+        return key in d and bool(pred(d[key]))
+
+    def dict_rest_is(self, d, base, own):
+        rest = {k: v for k, v in d.items() if not own(k if isinstance(k, tuple) else (k,))}
+        return rest == dict(base)
 
 
 def _conc_eq(a, b):
